@@ -274,8 +274,9 @@ def main(argv=None):
     try:
         import loki  # noqa
         lp = Path(loki.__file__).resolve()
-        if not str(lp).startswith('/repo/'):
-            raise HarnessError(f'loki resolves to {lp}, not /repo')
+        repo = os.environ.get('VERIF_REPO', '/repo').rstrip('/')
+        if not str(lp).startswith(repo + '/'):
+            raise HarnessError(f'loki resolves to {lp}, not {repo}')
         if a.replay:
             return run_replay(pid, a.replay)
         return run_check(pid, tier, seed)
